@@ -114,7 +114,9 @@ impl ProcessState {
             let tx = if !must_create {
                 db = connect(&e, &dbfile)
                     .map_err(|e| RedoError::new(format!("could not connect: {}", e)))?;
-                let tx = db.transaction().map_err(RedoError::opaque_error)?;
+                let tx = db
+                    .transaction_with_behavior(TransactionBehavior::Immediate)
+                    .map_err(RedoError::opaque_error)?;
                 let ver: Option<i32> = tx
                     .query_row("select version from Schema", [], |row| row.get(0))
                     .optional()
@@ -132,7 +134,9 @@ impl ProcessState {
                 helpers::unlink(&dbfile).map_err(RedoError::opaque_error)?;
                 db = connect(&e, &dbfile)
                     .map_err(|e| RedoError::new(format!("could not connect: {}", e)))?;
-                let tx = db.transaction().map_err(RedoError::opaque_error)?;
+                let tx = db
+                    .transaction_with_behavior(TransactionBehavior::Immediate)
+                    .map_err(RedoError::opaque_error)?;
                 tx.execute(
                     "create table Schema \
                         (version int)",
